@@ -785,7 +785,9 @@ where
             }
             Instruction::MStructSet(n) => {
                 let n: usize = n.into();
-                let mut field_name_value_pairs = Vec::with_capacity(n);
+                // `n` is an unchecked operand; at most `STACK_SIZE` pairs can be
+                // popped, so never reserve more than that.
+                let mut field_name_value_pairs = Vec::with_capacity(n.min(STACK_SIZE));
 
                 for _ in 0..n {
                     let field_val = self.ipop_value()?;
